@@ -212,7 +212,8 @@ def gen_ff(r, count):
         def vec(pool, pnan):
             return [None if r.random() < pnan else r.choice(pool) for _ in range(n)]
         s, t = vec(DY, 0.12), vec(DY, 0.12)
-        w = vec([x for x in WS if x != 0 or ff != "chi" or r.random() < 0.15], 0.05)
+        # reduced chi-squared divides by the weight: only powers of two keep the float arithmetic exact
+        w = vec([x for x in WS if (x != 0 or ff != "chi" or r.random() < 0.15) and (ff != "chi" or x != 3)], 0.05)
         cases.append(dict(kind="ff", ff=ff, free=r.randrange(0, 3), s=s, t=t, w=w))
     return cases
 
@@ -323,7 +324,7 @@ def gen_fit(r, count, flagged_share=0.25):
         orng = rng3(otime, orow, ocol)
         weights = None
         k = r.random()
-        wpool = [1, 2, 3, 4, Fraction(1, 2)] + ([] if ff == "chi" else [0, -1])
+        wpool = ([1, 2, 4, Fraction(1, 2)] if ff == "chi" else [1, 2, 3, 4, Fraction(1, 2), 0, -1])
         if flag in ("multi_weights", "chi_scalar_sub") or k < 0.4:
             if flag == "chi_scalar_sub" or r.random() < 0.65:
                 weights = dict(scalar=[r.choice(wpool) for _ in range(nt)])
